@@ -51,8 +51,9 @@ S is abstract: while it is in `analyze_iterative` (`SPc.run`) it may emit any ev
 (`sEndSelf`: depth limit, mate, terminal root), panic (`sPanic`: the F8 scenario — its locals are dropped without `Stop`
 being sent), and — only when the cancellation flag is set — end because of it (`sNotice`: the interrupt path; the
 `BestMove` event that path may still emit is an `sEmit` before `sNotice`, which is sound because the flag is never
-reset).  How long S takes to notice is not bounded; that it does (C04) is the fairness assumption on `sNotice`
-(`Act.fair`).
+reset).  How long S takes to notice is not bounded in time; that it does is the fairness assumption on `sNotice`
+(`Act.fair`) — in counted nodes it is bounded since the repair of F11, which made every iteration boundary a read of
+the flag (`Wee/Props/C04Stop.lean`: fewer than `workers × 10000` further nodes, then the loop ends).
 
 What the model assumes about `std` (see also `Wee/Props/Threads.lean`, "assumptions"):
 * `mpsc::channel`: unbounded FIFO; `send` never blocks, fails iff the receiver was dropped (then the message is
